@@ -40,10 +40,10 @@ func init() {
 }
 
 type c15Case struct {
-	Kind     string `json:"kind"` // spec | mutated | legacy-defaults
-	SDL      string `json:"sdl"`
-	Mutation string `json:"mutation,omitempty"`
-	MutSeed  uint64 `json:"mutation_seed,omitempty"`
+	Kind     string   `json:"kind"` // spec | mutated | legacy-defaults
+	SDL      string   `json:"sdl"`
+	Mutation string   `json:"mutation,omitempty"`
+	MutSeed  uint64   `json:"mutation_seed,omitempty"`
 	Features []string `json:"features,omitempty"`
 }
 
